@@ -1,5 +1,5 @@
 /-
-C01 — structured control flow compiles to bytecode that means what the source says.      (PARTIAL)
+C01 — structured control flow compiles to bytecode that means what the source says.
 
 Three models (DESIGN Appendix B):
   (1) the faithful flow-stack compiler with backpatching (Model/Compile.lean) + the VM (Model/VM.lean) —
@@ -13,9 +13,14 @@ What is decided how:
     forward simulation (Proofs/StructSim.lean, `sim_all`) for every program of the structured fragment (control
     structures, definitions, calls, recursion, locals, variables), every machine, every fuel: same data stack, variables, output (everything but log/meter/ip) when the program
     completes, or the same error at an instruction the debug map attributes to the same token;
-  * `compileS (parseS toks)` = the flow-stack compiler's bytecode and debug map: checked per generated program
-    by the driver (`C01 struct`, translation validation), not yet a theorem for all programs — this is the
-    remaining gap between the theorem and the real compiler's output;
+  * `compileS (parseS toks)` = the flow-stack compiler's bytecode and debug map — THEOREM
+    `flow_compiler_emits_compileS` (Proofs/FlowSim*.lean), for every token list `parseS` accepts; composed with the
+    first: `source_means_what_it_says`. Still also checked per generated program by the driver (`C01 struct`);
+  * through the interpreter's entry point — THEOREM `eval_means_what_the_source_says`: a fresh session of the
+    session model (Model/Session.lean) given the tokens through `build_from_source` in eval mode answers *done* /
+    *failed* exactly as the structural evaluator says, with the evaluator's machine and debug map; it rests on
+    `Session.tokens_is_compileToks` (Proofs/SessionCompile.lean): outside meta blocks the session's token loop IS the
+    flow-stack compiler;
   * word definitions, calls (recursion included) and locals ARE in the structured fragment (stage 2): a call node
     names the entry address of the callee and the return address the compiler assigns (the evaluator copies it into
     the frame it pushes and never looks at it); the function table is read off the tree (`tabOf`), and the theorem
@@ -40,6 +45,8 @@ import XehModel.Model.Structured
 import XehModel.Model.ParseS
 import XehModel.Proofs.StructSim
 import XehModel.Proofs.StructLoops
+import XehModel.Proofs.SessionCompile
+import XehModel.Props.C15
 
 namespace Xeh.C01
 open Xeh Xeh.Mach Xeh.Structured
@@ -296,5 +303,203 @@ example :
       .word "then", .word "I", .word "sq", .lit (.int 1), .word "case", .lit (.int 1), .word "of", .lit (.int 7), .word "endof",
       .word "endcase", .word "loop"]
     (parseS toks { dict := dict, heapLen := 0 }).isSome = true := by decide +kernel
+
+/-! ### the same, through `eval` — the session model's `build_from_source` -/
+
+/-- a successful step is a step of a running machine (beyond the end of the code `fetch_and_run` panics) -/
+theorem step_ok_running (np : String → Option Prog) (m m' : Mach) (o : Outcome Unit) (h : step np m = (o, m'))
+    (ho : ∀ p, o ≠ .panic p) (hl : m.insnLimit = none) : m.isRunning = true := by
+  unfold step at h
+  simp only [meterIncrease, hl] at h
+  split at h
+  · rename_i hn
+    cases h
+    exact absurd rfl (ho _)
+  all_goals (rename_i hop; simp only [isRunning]; have := List.getElem?_eq_some_iff.mp hop |>.1 ; simpa using this)
+
+/-- all machines on the way of `n` successful steps are running -/
+theorem stepN_running (np : String → Option Prog) : ∀ (n : Nat) (m mv : Mach), m.insnLimit = none → C02.stepN np n m = some mv →
+    ∀ j mj, j < n → C02.stepN np j m = some mj → mj.isRunning = true := by
+  intro n
+  induction n with
+  | zero => intro m mv _ _ j mj hj; omega
+  | succ n ih =>
+    intro m mv hl h j mj hj hmj
+    simp only [C02.stepN] at h
+    split at h
+    · rename_i m1 hs
+      cases j with
+      | zero => cases hmj; exact step_ok_running np _ m1 (.ok ()) hs (fun p hp => by cases hp) hl
+      | succ j =>
+        simp only [C02.stepN, hs] at hmj
+        have hl1 : m1.insnLimit = none := by
+          have := (Mach.step_mle np m).limit; rw [hs] at this; rw [this]; exact hl
+        exact ih m1 mv hl1 h j mj (by omega) hmj
+    · cases h
+
+/-- a failing instruction leaves the instruction pointer on itself (restated from Props/C17.lean, which builds on this file) -/
+theorem failing_step_keeps_ip (np : String → Option Prog) (m : Mach) (w : WF m) (h : (step np m).1 ≠ .ok ()) :
+    (step np m).2.ctx.ip = m.ctx.ip := by
+  have sh := step_shape np m w
+  cases sh with
+  | early hc _ _ _ _ _ =>
+    have := congrArg Core.ctx hc
+    simp only [core] at this
+    rw [this]
+  | exec m0 p s =>
+    have h0 : m0.ctx = m.ctx := by have := congrArg Core.ctx p.core; simpa [core] using this
+    cases s with
+    | fail seg mp r e ne => rw [e, r.ctx, h0]
+    | done seg mp n r e => rw [e] at h; exact absurd rfl h
+
+/-- stack floors and the length of the code survive any number of successful steps -/
+theorem stepN_sealed (np : String → Option Prog) : ∀ (n : Nat) (m mv : Mach), WF m → C02.stepN np n m = some mv →
+    WF mv ∧ mv.code.length = m.code.length := by
+  intro n
+  induction n with
+  | zero => intro m mv w h; cases h; exact ⟨w, rfl⟩
+  | succ n ih =>
+    intro m mv w h
+    simp only [C02.stepN] at h
+    have hs := step_sealed np m w
+    split at h
+    · rename_i m1 heq
+      rw [heq] at hs
+      obtain ⟨a, b⟩ := ih m1 mv hs.wf h
+      exact ⟨a, b.trans hs.codeLen⟩
+    · cases h
+
+open Xeh.Session Xeh.Session.Sess in
+/-- **`eval` of a structured source means what the source says.**  A fresh interpreter session `s` — no code yet,
+    nothing pending, in eval mode, no instruction or heap limit; any dictionary, any data stack, any variables — is given
+    the tokens through `build_from_source` in eval mode (what `Xstate::eval` does).  `st` is the tree `parseS` reads off
+    the tokens.  If the structural evaluator finishes (`ok`): for all sufficient fuel, `eval` answers *done* and the
+    session's machine agrees with the evaluator's (data stack, variables, output, loop/return/builder stacks: `normX`),
+    with the debug map of the tree.  If the evaluator fails at token `tok` with an error that is not one of the
+    model's gap markers: `eval` answers *failed* with the same error, the machine agrees, and the debug map entry under
+    the instruction pointer is `tok`. -/
+theorem eval_means_what_the_source_says (toks : List Compile.Tok) (s : Sess) (f : Nat) (st : Stmt) (ps' : PState)
+    (hcode : s.m.code = []) (hdmap : s.dmap = []) (hflows : s.flows = []) (hmode : s.m.ctx.mode = .eval)
+    (hwf : WF s.m) (hlim : s.m.insnLimit = none) (hhl : s.m.heapLimit = none)
+    (hp : parseS toks { dict := s.m.dict, heapLen := s.m.heap.length } = some (st, ps')) (hsize : size st < 2^62) :
+    ∃ m1 : Mach, m1.ds = s.m.ds ∧ m1.code = codeOf st ∧
+      match evalS nativeProg (tabOf st) f st m1 with
+      | .ok m' => ∃ n, ∀ k, ∃ mv, normX mv = normX m' ∧
+          s.buildSource (n + k) .eval toks =
+            .done { s with m := { mv with ctx := { s.m.ctx with ip := mv.ctx.ip } }, dmap := dmapOf st, lastTok := toks.length }
+      | .err e tok m' => isModelGap (.err e : Outcome Unit) = false → ∃ n, ∀ k, ∃ mv, normX mv = normX m' ∧
+          (dmapOf st)[mv.ctx.ip]? = some tok ∧
+          s.buildSource (n + k) .eval toks = .failed e { s with m := mv, dmap := dmapOf st, lastTok := toks.length }
+      | _ => True := by
+  -- the machine `eval` runs the program on: the session's machine under the context `eval` opens
+  have hwf0 : WF (s.contextOpen .eval).m := by
+    refine ⟨?_, Nat.le_refl _, Nat.le_refl _, Nat.le_refl _⟩
+    simp only [Sess.contextOpen, hmode, if_true]
+    exact hwf.ds
+  have hip0 : (s.contextOpen .eval).m.ctx.ip = 0 := by simp [Sess.contextOpen, hcode]
+  obtain ⟨sc, hc, hd, hrest⟩ := source_means_what_it_says nativeProg toks (s.contextOpen .eval).m f st ps' hip0 hwf0
+    hlim hp hsize
+  obtain ⟨sc2, hc2, hcode2, _, _, _, hfl2⟩ := flow_compiler_emits_compileS toks _ ps' st
+    { dict := s.m.dict, heapLen := s.m.heap.length } hp ⟨rfl, rfl, rfl, rfl⟩ rfl rfl rfl rfl
+  have hsc : sc2 = sc := by
+    have : Compile.CRes.ok sc2 = Compile.CRes.ok sc := hc2.symm.trans hc
+    cases this; rfl
+  subst hsc
+  have hb := build1_fresh 0 .eval (by decide) toks s sc2 hcode hdmap hflows hhl hc hfl2
+  have hbk : ∀ fuel, (s.contextOpen .eval).build1 fuel toks =
+      .ok { ((s.contextOpen .eval).fromC sc2) with lastTok := toks.length } :=
+    fun fuel => build1_fresh fuel .eval (by decide) toks s sc2 hcode hdmap hflows hhl hc hfl2
+  refine ⟨((s.contextOpen .eval).fromC sc2).m, rfl, by simpa [Sess.fromC] using hcode2, ?_⟩
+  have hm1 : ((s.contextOpen .eval).fromC sc2).m = { (s.contextOpen .eval).m with code := sc2.code, dict := sc2.dict, heap := (s.contextOpen .eval).m.heap ++ List.replicate (sc2.heapLen - (s.contextOpen .eval).m.heap.length) Cell.nil } := rfl
+  simp only at hrest
+  rw [← hm1] at hrest
+  have hl1 : ((s.contextOpen .eval).fromC sc2).m.insnLimit = none := hlim
+  -- what `build_from_source` does once the tokens are read
+  have hbs : ∀ fuel, s.buildSource fuel .eval toks =
+      match ({ ((s.contextOpen .eval).fromC sc2) with lastTok := toks.length, nested := s.nested } : Sess).runS fuel with
+      | .ok s3 => .done { s3 with m := { s3.m with ctx := { s.m.ctx with ip := s3.m.ctx.ip } } }
+      | .err e s3 => .failed e s3
+      | .panic p s3 => .panic p s3
+      | .unsupported u => .unsupported u
+      | .timeout => .timeout := by
+    intro fuel
+    unfold Sess.buildSource
+    simp only [hbk fuel]
+    have hcu : ((s.contextOpen .eval).fromC sc2).constUndo = s.constUndo := rfl
+    simp only [hcu, Nat.sub_self, List.drop_zero]
+    have hn : ((s.contextOpen .eval).fromC sc2).nested = s.m.ctx :: s.nested := rfl
+    have hmd : ((s.contextOpen .eval).fromC sc2).m.ctx.mode = .eval := rfl
+    simp only [Sess.contextClose, hn, hmd, hmode, if_true]
+    cases Sess.runS fuel _ <;> rfl
+  have hwf1 : WF ((s.contextOpen .eval).fromC sc2).m := ⟨hwf0.ds, hwf0.rs, hwf0.ls, hwf0.ss⟩
+  have hcl0 : ((s.contextOpen .eval).fromC sc2).m.code.length = (codeOf st).length := by
+    have : ((s.contextOpen .eval).fromC sc2).m.code = codeOf st := by simpa [Sess.fromC] using hcode2
+    rw [this]
+  have hfl0 : ((s.contextOpen .eval).fromC sc2).flows = s.flows := by
+    simp [Sess.fromC, Sess.hidden, Sess.visLen, Sess.contextOpen, hflows, hfl2]
+  have hdm0 : ((s.contextOpen .eval).fromC sc2).dmap = dmapOf st := by simpa [Sess.fromC] using hd
+  split
+  · -- the evaluator finishes
+    rename_i m' heq
+    rw [heq] at hrest
+    obtain ⟨n, mv, h1, h2, h3⟩ := hrest
+    refine ⟨n, fun k => ⟨mv, h3, ?_⟩⟩
+    have hcl := (stepN_sealed nativeProg n _ mv hwf1 h1).2
+    have hrun := C15.run_eq_steps nativeProg n k _ mv h1 (stepN_running nativeProg n _ mv hl1 h1)
+      (by simp [isRunning, h2, hcl, hcl0])
+    rw [hbs (n + k)]
+    simp only [Sess.runS, hrun]
+    simp only [hfl0, hdm0]
+    rfl
+  · -- the evaluator fails
+    rename_i e tok m' heq
+    rw [heq] at hrest
+    obtain ⟨n, mv, mv', h1, h2, h3, h4⟩ := hrest
+    intro hgap
+    have hlv : mv.insnLimit = none := by
+      have key : ∀ (n : Nat) (a b : Mach), a.insnLimit = none → C02.stepN nativeProg n a = some b → b.insnLimit = none := by
+        intro n
+        induction n with
+        | zero => intro a b ha hb; cases hb; exact ha
+        | succ n ih =>
+          intro a b ha hb
+          simp only [C02.stepN] at hb
+          split at hb
+          · rename_i a1 hs
+            have := (Mach.step_mle nativeProg a).limit; rw [hs] at this
+            exact ih a1 b (by rw [this]; exact ha) hb
+          · cases hb
+      exact key n _ mv hl1 h1
+    have hrv : mv.isRunning = true := step_ok_running nativeProg mv mv' (.err e) h2 (fun p hp => by cases hp) hlv
+    have hrun := C15.run_eq_steps_err nativeProg n 0 _ mv (.err e, mv') h1
+      (fun j mj hj hmj => by
+        rcases Nat.lt_or_eq_of_le hj with hlt | heq'
+        · exact stepN_running nativeProg n _ mv hl1 h1 j mj hlt hmj
+        · subst heq'; rw [h1] at hmj; cases hmj; exact hrv)
+      h2 (by intro h; cases h)
+    have hwv := (stepN_sealed nativeProg n _ mv hwf1 h1).1
+    have hipv : mv'.ctx.ip = mv.ctx.ip := by
+      have := failing_step_keeps_ip nativeProg mv hwv (by rw [h2]; intro h; cases h)
+      rw [h2] at this; exact this
+    refine ⟨n + 1, fun k => ⟨mv', h3, by rw [hipv]; exact h4, ?_⟩⟩
+    have hrun' : Mach.run nativeProg (n + 1 + k) ((s.contextOpen .eval).fromC sc2).m = some (.err e, mv') := by
+      have := C15.run_eq_steps_err nativeProg n k _ mv (.err e, mv') h1
+        (fun j mj hj hmj => by
+          rcases Nat.lt_or_eq_of_le hj with hlt | heq'
+          · exact stepN_running nativeProg n _ mv hl1 h1 j mj hlt hmj
+          · subst heq'; rw [h1] at hmj; cases hmj; exact hrv)
+        h2 (by intro h; cases h)
+      exact this
+    rw [hbs (n + 1 + k)]
+    simp only [Sess.runS, hrun', hgap, Bool.false_eq_true, if_false]
+    simp only [hfl0, hdm0]
+    rfl
+  all_goals trivial
+
+/-- the hypotheses about the session are satisfiable: the empty session -/
+example : ({} : Session.Sess).m.code = [] ∧ ({} : Session.Sess).dmap = [] ∧ ({} : Session.Sess).flows = [] ∧
+    ({} : Session.Sess).m.ctx.mode = .eval ∧ WF ({} : Session.Sess).m ∧ ({} : Session.Sess).m.insnLimit = none ∧
+    ({} : Session.Sess).m.heapLimit = none :=
+  ⟨rfl, rfl, rfl, rfl, ⟨Nat.le_refl _, Nat.le_refl _, Nat.le_refl _, Nat.le_refl _⟩, rfl, rfl⟩
 
 end Xeh.C01
